@@ -87,6 +87,86 @@ def run(e: Engine, rep: Report, rule: str):
                                 e.cg.mutates_param(t.ctx(), prm[i]):
                             return True
                 return False
+            def stores_back(call, argnode, depth=0):
+                """does every callee of `call` (a method of this backend)
+                that changes the object passed as `argnode` also assign it
+                back into a substrate mapping on every path after the
+                change (`meta.update(..); self.meta_db[id] = meta`)?"""
+                res = e.r.resolve_call(call, ctx)
+                if not res.targets or res.externals or res.unresolved:
+                    return False
+                for t in res.targets:
+                    if t.func.cls is None or not e.p.is_subclass(
+                            cq, t.func.cls.qname):
+                        return False
+                    prm = list(t.func.params)
+                    if t.func.kind in ('method', 'classmethod') and \
+                            isinstance(call.func, ast.Attribute):
+                        prm = prm[1:]
+                    pn = None
+                    for i, a in enumerate(call.args):
+                        if a is argnode and i < len(prm):
+                            pn = prm[i]
+                    if pn is None:
+                        return False
+                    tg = e.build(t.ctx(), raises=lambda b, n, r: set())
+
+                    def mut(n, pn=pn):
+                        a = n.ast
+                        if n.kind == 'stmt':
+                            tgs = a.targets if isinstance(a, ast.Assign) \
+                                else ([a.target] if isinstance(
+                                    a, ast.AugAssign) else (
+                                    a.targets if isinstance(a, ast.Delete)
+                                    else []))
+                            for t0 in tgs:
+                                for y in ast.walk(t0):
+                                    if isinstance(y, (ast.Subscript,
+                                                      ast.Attribute)) and \
+                                            isinstance(y.value, ast.Name) \
+                                            and y.value.id == pn and \
+                                            isinstance(y.ctx, (ast.Store,
+                                                               ast.Del)):
+                                        return True
+                        if n.kind == 'call':
+                            f2 = a.func
+                            if isinstance(f2, ast.Attribute) and \
+                                    isinstance(f2.value, ast.Name) and \
+                                    f2.value.id == pn and \
+                                    f2.attr in MUTATORS:
+                                return True
+                        return False
+
+                    def back(n, pn=pn):
+                        a = n.ast
+                        return n.kind == 'stmt' and \
+                            isinstance(a, ast.Assign) and any(
+                                is_fetch(t0) for t0 in a.targets) and \
+                            isinstance(a.value, ast.Name) and a.value.id == pn
+                    if any(isinstance(y, ast.Name) and y.id == pn and
+                           isinstance(y.ctx, (ast.Store, ast.Del))
+                           for y in walk_own(t.func.node)):
+                        return False
+                    muts = [n for n in tg.nodes if mut(n)]
+                    # (a change made by a further helper is not followed)
+                    if not muts or any(
+                            n.kind == 'call' and any(
+                                isinstance(a, ast.Name) and a.id == pn
+                                for a in n.ast.args) and
+                            mutating_call(n.ast, next(
+                                a for a in n.ast.args
+                                if isinstance(a, ast.Name) and a.id == pn))
+                            for n in tg.nodes if not mut(n)):
+                        return False
+                    after = dataflow.must_events_after(
+                        tg, lambda n: ['back'] if back(n) else [],
+                        edge=c07.no_call_exc)
+                    for mu in muts:
+                        st = after.get(mu.id)
+                        if not (isinstance(st, dataflow.Top) or
+                                'back' in (st or ())):
+                            return False
+                return True
             fn = m.node
             n_fetch += sum(1 for x in walk_own(fn) if is_fetch(x))
             parents = {}
@@ -110,7 +190,7 @@ def run(e: Engine, rep: Report, rule: str):
                             par.attr in MUTATORS:
                         bad = '.%s(...)' % par.attr
                 elif isinstance(par, ast.Call) and x in par.args and \
-                        mutating_call(par, x):
+                        mutating_call(par, x) and not stores_back(par, x):
                     bad = 'passed to `%s`, which changes it' % \
                         ast.unparse(par.func)
                 elif isinstance(par, ast.AugAssign) and par.target is x:
@@ -165,7 +245,8 @@ def run(e: Engine, rep: Report, rule: str):
                             return True
                         for arg in a.args:
                             if isinstance(arg, ast.Name) and arg.id == var \
-                                    and mutating_call(a, arg):
+                                    and mutating_call(a, arg) and \
+                                    not stores_back(a, arg):
                                 return True
                     return False
 
